@@ -497,37 +497,30 @@ def cPExpireAt (cs : CState) (k : Nat) (t : Int) : CState × Reply :=
   if !liveKey cs k then (cs, .int 0)
   else expireAtRel cs k (sat (t - (cs.epoch : Int)))
 
-/-- `execute_ttl` -/
-def cTtl (cs : CState) (k : Nat) : CState × Reply :=
+/-- the shape `execute_ttl` / `execute_pttl` / `execute_expiretime` / `execute_pexpiretime` share:
+    −2 for a key that is absent or past its deadline, −1 without a deadline, else `f deadline` -/
+def ttlShape (cs : CState) (k : Nat) (f : Nat → Int) : CState × Reply :=
   if !liveKey cs k then (cs, .int (-2))
   else
     match NMap.get cs.exp k with
-    | some d => (cs, .int (max ((asI64 d - asI64 cs.now + 500) / 1000) 0))
+    | some d => (cs, .int (f d))
     | none => (cs, .int (-1))
+
+/-- `execute_ttl`: `((remaining_ms + 500) / 1000).max(0)` -/
+def cTtl (cs : CState) (k : Nat) : CState × Reply :=
+  ttlShape cs k (fun d => max ((asI64 d - asI64 cs.now + 500) / 1000) 0)
 
 /-- `execute_pttl` -/
 def cPTtl (cs : CState) (k : Nat) : CState × Reply :=
-  if !liveKey cs k then (cs, .int (-2))
-  else
-    match NMap.get cs.exp k with
-    | some d => (cs, .int (max (asI64 d - asI64 cs.now) 0))
-    | none => (cs, .int (-1))
+  ttlShape cs k (fun d => max (asI64 d - asI64 cs.now) 0)
 
 /-- `execute_expiretime` -/
 def cExpireTime (cs : CState) (k : Nat) : CState × Reply :=
-  if !liveKey cs k then (cs, .int (-2))
-  else
-    match NMap.get cs.exp k with
-    | some d => (cs, .int (sat (sat ((cs.epoch : Int) + asI64 d) + 500) / 1000))
-    | none => (cs, .int (-1))
+  ttlShape cs k (fun d => sat (sat ((cs.epoch : Int) + asI64 d) + 500) / 1000)
 
 /-- `execute_pexpiretime` -/
 def cPExpireTime (cs : CState) (k : Nat) : CState × Reply :=
-  if !liveKey cs k then (cs, .int (-2))
-  else
-    match NMap.get cs.exp k with
-    | some d => (cs, .int (sat ((cs.epoch : Int) + asI64 d)))
-    | none => (cs, .int (-1))
+  ttlShape cs k (fun d => sat ((cs.epoch : Int) + asI64 d))
 
 /-- `execute_persist` -/
 def cPersist (cs : CState) (k : Nat) : CState × Reply :=
